@@ -303,6 +303,11 @@ func solveVariant(parent context.Context, vc *VC, o *Obligation, workDir string,
 				st = "unsat"
 			case first == "sat":
 				st = "sat"
+				if strings.Contains(string(out), "((goal!chk true))") {
+					// the offered model satisfies the goal: not a counterexample (solver incompleteness)
+					st = "unknown"
+					out = []byte("unknown (sat rejected: the goal evaluates to true in the offered model)\n" + string(out))
+				}
 			case first == "timeout" || strings.Contains(first, "timeout") || strings.Contains(first, "interrupted"):
 				st = "timeout"
 			case strings.HasPrefix(first, "(error") || strings.Contains(first, "rror"):
